@@ -47,6 +47,16 @@ def parmap(fi: FuncInfo) -> dict:
     return _PARENTS[k]
 
 
+_PMS: dict[tuple[int, str], object] = {}
+
+
+def pm_of(p: Program, fi: FuncInfo):
+    """Fresh-per-function structural pattern matcher (patterns are matched modulo renaming of locals)."""
+    from ..pattern import PM
+
+    return PM(p, fi)
+
+
 def where(fi: FuncInfo) -> str:
     return f"{fi.module}:{fi.qual}"
 
